@@ -1,4 +1,7 @@
 """C18 EBPPS: thin structural clauses (bookkeeping, closed forms, merge accounting); see rules/sampling_rules.py."""
+from vlib.core import VERIF
+import json, os
+import a4_twin
 import sampling_rules as S
 import generic_lints
 import hazard_lints
@@ -16,6 +19,7 @@ def run(facts, tier):
         ("reset completeness", lambda fa: c19_rules.reset_completeness(fa, ['ebpps_sketch', 'ebpps_sample']), 6, "every field a mutator modifies is re-initialised by reset() (reviewed exceptions: scratch sample, configured k)"),
         ("emptiness predicate support", lambda fa: predicates.obligations(fa, ['ebpps_sketch']), 1, "is_empty keeps its reviewed support"),
         ("reader dead-reads", lambda fa: [o for o in dead_reads.obligations(fa) if "ebpps" in o["key"]], 6, "every field the EBPPS readers take from the image reaches the restored sketch on every accepting path"),
+        ("serializer twins", lambda fa: [o for o in a4_twin.obligations(fa, set(json.load(open(os.path.join(VERIF, "spec", "twin_armed.json")))["armed"])) if "ebpps" in o["key"]], 2, "stream and byte writers of the EBPPS sketch and sample emit the same fields under the same conditions (the two images of one state are one format)"),
         ("tautologies", lambda fa: generic_lints.tautologies(fa, ('sampling/',)), 2, "no comparison / assignment / min-max with two identical operands"),
         ("hazards", lambda fa: hazard_lints.hazards(fa, ('sampling/',)), 2, "no 64-bit value silently narrowed at a call of a library function, no numeric_limits<floating>::min() as a lowest value, no random engine constructed inside a loop, no read of a moved-from parameter, no unguarded unsigned `x - c` loop bound (reviewed instances in spec/hazards.json)"),
         ("duplicate operands", lambda fa: generic_lints.duplicate_conjuncts(fa, ('sampling/',)), 2, "no logical chain tests the same operand twice"),
